@@ -23,6 +23,9 @@ type generator struct {
 	downVictim int
 	downLeft   int
 	prof       profile
+	redupState int   // C16: progress of redupPlan
+	redupAt    int64 // activation height the plan scheduled
+	redupTx    int   // id of the transaction it sends twice
 }
 
 // profile: relative weights of step kinds and tx kinds for the property being checked.
@@ -172,6 +175,11 @@ func tuneForProperty(c *Config, prop string, r *core.Rand) {
 	}
 	// staggered activation: some features are left unscheduled in genesis and arrive by upgrade
 	// transactions during the run (verdict-bearing only where the statement mentions activation)
+	if prop == "C16" && r.Chance(0.35) {
+		// the in-block duplicate cache is a feature too: left out of genesis, it arrives by an upgrade
+		// transaction during the run, and the block at its activation height gets a duplicate
+		delete(c.Features, "REDUP")
+	}
 	switch prop {
 	case "C14", "C22", "C23", "C37":
 		for _, f := range []string{"OEDIT", "AppTransfer", "RewardDelegators", "CRVAL", "PerChainRTTM", "MAXCH", "VEDIT"} {
@@ -227,7 +235,64 @@ func (s *Sim) keyIndexOf(addr string) int {
 	return -1
 }
 
+// redupPlan (C16, configurations without the duplicate-cache feature in genesis): schedule the
+// feature by an upgrade transaction, and put one transaction twice into the block at its
+// activation height.
+func (g *generator) redupPlan() *Step {
+	s := g.s
+	if s.prop != "C16" {
+		return nil
+	}
+	if _, inGenesis := s.cfg.Features["REDUP"]; inGenesis {
+		return nil
+	}
+	h := s.drv.Height
+	switch g.redupState {
+	case 0:
+		if !g.r.Chance(0.15) {
+			return nil
+		}
+		g.redupAt = h + 3
+		g.redupState = 1
+		st := &Step{Op: "tx", ID: s.nextID, Kind: "gov_upgrade", From: s.cfg.OwnerKey, SignKey: s.cfg.OwnerKey, Sig: "ok", Fee: baseFee, Output: -1,
+			Upgrade: &UpgradeSpec{Height: 1, Version: "FEATURE", Features: []string{fmt.Sprintf("REDUP:%d", g.redupAt)}}}
+		s.nextID++
+		s.entropy++
+		st.Entropy = s.entropy
+		return st
+	case 1, 2:
+		// blocks up to the one before the activation height
+		if h < g.redupAt-1 {
+			g.redupState = 2
+			g.sinceBlock = 0
+			return &Step{Op: "block", DtS: 900}
+		}
+		if h > g.redupAt-1 {
+			g.redupState = 9
+			return nil
+		}
+		g.redupState = 3
+		st := &Step{Op: "tx", ID: s.nextID, Kind: "send", From: walletBase, To: walletBase + 1, Amount: 1000, SignKey: walletBase, Sig: "ok", Fee: baseFee, Output: -1}
+		s.nextID++
+		s.entropy++
+		st.Entropy = s.entropy
+		g.redupTx = st.ID
+		return st
+	case 3:
+		g.redupState = 4
+		return &Step{Op: "resubmit", Ref: g.redupTx, Enc: "same"}
+	case 4:
+		g.redupState = 9
+		g.sinceBlock = 0
+		return &Step{Op: "block", DtS: 900}
+	}
+	return nil
+}
+
 func (g *generator) next() *Step {
+	if st := g.redupPlan(); st != nil {
+		return st
+	}
 	p := g.prof
 	w := []int{p.tx, p.block, p.resubmit, p.offchain, p.restart, p.relay, p.claims}
 	if g.sinceBlock > 10 {
